@@ -44,7 +44,7 @@ impl Scenario for SubsScenario {
 		300
 	}
 	fn setup(&self) -> SrvState {
-		smem::setup(&SrvCfg { conns: self.conns.iter().cloned().map(Conn::Ws).collect(), scripts: self.scripts.clone(), stop: self.stop, buffer: self.buffer, max_subs: self.max_subs, max_resp: self.max_resp, wide_ids: if self.max_resp > 0 { self.max_resp as usize + 28 } else if self.name.contains("string-ids") { 3 } else { 0 }, ..Default::default() })
+		smem::setup(&SrvCfg { conns: self.conns.iter().cloned().map(Conn::Ws).collect(), scripts: self.scripts.clone(), stop: self.stop, buffer: self.buffer, max_subs: self.max_subs, max_resp: self.max_resp, low_ws: self.name.contains("low-level"), wide_ids: if self.max_resp > 0 { self.max_resp as usize + 28 } else if self.name.contains("string-ids") { 3 } else { 0 }, ..Default::default() })
 	}
 	fn judge(&self, _st: SrvState, trace: &[String], panics: &[String], status: Status) -> Verdict {
 		let mut v = monitor(trace, self.conns.len());
@@ -250,6 +250,10 @@ pub fn scenarios(thorough: bool) -> Vec<SubsScenario> {
 		SubsScenario { name: String::from("stop-with-call-in-flight-two-conns"), conns: vec![vec![Subscribe(0)], vec![SlowCall]], scripts: vec![vec![Accept, Send, IsClosed, Send, IsClosed]], stop: true, mask: mask_harness_only, buffer: 16, max_subs: 16, max_resp: 0 },
 		// the peer stops reading, a notification larger than the socket buffer stalls the connection's writer, then the server is stopped
 		SubsScenario { name: String::from("stop-with-stalled-writer"), conns: vec![vec![Subscribe(0), StopReading]], scripts: vec![vec![Accept, SendBig, Send, IsClosed, Send, IsClosed]], stop: true, mask: mask_harness_only, buffer: 2, max_subs: 16, max_resp: 0 },
+		// the low-level assembly (application-made tower service around ws::connect)
+		SubsScenario { name: String::from("low-level:unsubscribe-vs-sends"), conns: vec![vec![Subscribe(0), Unsub(0)]], scripts: vec![vec![Accept, Send, IsClosed, Send, IsClosed, ReturnErr]], stop: false, mask: mask_harness_only, buffer: 16, max_subs: 16, max_resp: 0 },
+		SubsScenario { name: String::from("low-level:stop-vs-sends"), conns: vec![vec![Subscribe(0)]], scripts: vec![vec![Accept, Send, IsClosed, Send, IsClosed, ReturnErr]], stop: true, mask: mask_harness_only, buffer: 16, max_subs: 16, max_resp: 0 },
+		SubsScenario { name: String::from("low-level:drop-vs-sends"), conns: vec![vec![Subscribe(0), Drop]], scripts: vec![vec![Accept, Send, IsClosed, Send, ReturnMsg]], stop: false, mask: mask_harness_only, buffer: 16, max_subs: 16, max_resp: 0 },
 		// string subscription ids (id provider): the id travels as a JSON string in responses, notifications and unsubscribe params
 		SubsScenario { name: String::from("string-ids:unsubscribe-vs-sends"), conns: vec![vec![Subscribe(0), Unsub(0)]], scripts: vec![vec![Accept, Send, IsClosed, Send, ReturnErr]], stop: false, mask: mask_harness_only, buffer: 16, max_subs: 16, max_resp: 0 },
 		SubsScenario { name: String::from("string-ids:two-subs-foreign-unsub"), conns: vec![vec![Subscribe(0), UnsubForeign(1, 0)], vec![Subscribe(1)]], scripts: vec![vec![Accept, Send, IsClosed], vec![Accept, Send, IsClosed, Send]], stop: false, mask: mask_harness_only, buffer: 16, max_subs: 16, max_resp: 0 },
